@@ -98,7 +98,12 @@ pub struct MadeR {
 fn instance_labels(rng: &mut Rng) -> String {
     // as given to ServiceInfo::new (dots inside the instance name are allowed there)
     let long = |n: usize| "L".repeat(n);
-    match rng.below(14) {
+    match rng.below(18) {
+        // a full-length label whose counter gains a digit with the next rename
+        14 => format!("{} (9)", long(59)),
+        15 => format!("{} (9)", long(*rng.pick(&[56usize, 57, 58]))),
+        16 => format!("{} (99)", long(*rng.pick(&[55usize, 56, 57]))),
+        17 => format!("{} (999)", long(56)),
         0 => "printer".into(),
         1 => "Printer One".into(),
         2 => "x (2)".into(),
@@ -118,7 +123,10 @@ fn instance_labels(rng: &mut Rng) -> String {
 
 fn host_names(rng: &mut Rng) -> String {
     let long = |n: usize| "h".repeat(n);
-    match rng.below(11) {
+    match rng.below(14) {
+        11 => format!("{}-9.local.", long(61)),
+        12 => format!("{}-9.local.", long(*rng.pick(&[58usize, 59, 60]))),
+        13 => format!("{}-99.local.", long(*rng.pick(&[58usize, 59, 60]))),
         0 => "box.local.".into(),
         1 => "Box.local.".into(),
         2 => "box-2.local.".into(),
@@ -1076,7 +1084,7 @@ pub fn run(report: &Report, tier: &Tier) {
     }
     report.assume("a counter already at 2^32-1 may count on or start a fresh suffix; a conflict delivered after the third probe is 250 ms old is not 'while probing' and is not judged (DESIGN §12)");
     let seed = report.seed;
-    let n: u64 = if tier.thorough { 150_000 } else { 6_000 };
+    let n: u64 = if tier.thorough { 600_000 } else { 6_000 };
     let thorough = tier.thorough;
     // (runs with two or three daemon threads are an order of magnitude dearer: one in ten)
     run_parallel(report, n, threads(), tier.budget_s, |i, l| match i % 10 {
